@@ -654,7 +654,32 @@ class Sim:
                 lo = m.mins[0] if m.n else 0.0
                 v.values = self.as_buf([1.0] * n2, "rj")
             elif k == "unknown_key":
-                v["__nokey__"] = 1.0
+                # a key that is not an element name: a typo of a name, or the
+                # name of something else the object has (attribute, property,
+                # internal field) - assignment by key knows element names only
+                near = []
+                if m.n:
+                    nm0 = m.names[cs.draw("i", m.n)]
+                    near = [nm0.upper() if nm0.upper() != nm0 else nm0 + "_",
+                            nm0 + " "]
+                vecval = [clip1(0.5 * (m.mins[j] + m.maxs[j])
+                                if np.isfinite(m.mins[j] + m.maxs[j]) else 0.25,
+                                m.mins[j], m.maxs[j]) + 0.125
+                          for j in range(m.n)]
+                cands = [("__nokey__", 1.0), ("values", vecval),
+                         ("_values", np.array(vecval)),
+                         ("defaults", vecval), ("_defaults", np.array(vecval)),
+                         ("mins", vecval), ("_mins", np.array(vecval)),
+                         ("maxs", vecval), ("_maxs", np.array(vecval)),
+                         ("hitbounds", True), ("_hitbounds", not m.hit),
+                         ("names", ["zz"] * m.n), ("_names", ["zz"] * m.n),
+                         ("nval", m.n + 1), ("_nval", m.n + 1),
+                         ("check_hitbounds", False), ("accept_nan", True),
+                         ("_check_hitbounds", False), ("_accept_nan", True),
+                         (0, 1.0)] + [(x, 1.0) for x in near]
+                key, val = cands[cs.draw("ukey", len(cands))]
+                self.log.ev("reject.key", repr(key))
+                v[key] = val
             elif k == "nan_all":
                 # other elements get new in-bounds values, so that a partial
                 # store before the rejection shows
